@@ -41,7 +41,8 @@ Fixpoint verifier (strict : bool) (target : str) (f : fsmap) (gs : list gtree) :
   end.
 
 (* treeSimple.verify / verifyProgrammably: validation is always on *)
-Definition verify_trees (c : cfg) (strict : bool) (dir : str) (f : fsmap) (ts : list tree) : res unit :=
+Definition verify_trees (c0 : cfg) (strict : bool) (dir : str) (f : fsmap) (ts : list tree) : res unit :=
+  let c := no_enc c0 in
   match grow_all c true ts with
   | Err e => Err e
   | Panic => Panic
